@@ -206,7 +206,9 @@ class Beam(_Simu):
         # Lagrange path from the base class.
         beamStructure = self.structure
         all_unknowns = self.Get_unknowns(problemType)
-        hermitian = set(all_unknowns) - {"x", "rx"}
+        # with P^T N below, every row is a global component: all unknowns take this path,
+        # so the nodal forces do not depend on the inclination of the member.
+        hermitian = set(all_unknowns)
         lagrange_idx = [i for i, u in enumerate(unknowns) if u not in hermitian]
         hermitian_idx = [i for i, u in enumerate(unknowns) if u in hermitian]
 
